@@ -51,12 +51,13 @@ func (u *writeUnit) start(r wuReq) error {
 				return nil
 			}
 			u.Reset()
-			u.ctx.WriteMemory(u.memoryWrite.Execution)
 			u.ctx.DeletePendingRegisters(u.memoryWrite.ReadRegisters, u.memoryWrite.WriteRegisters)
 			log.Infoi(u.ctx, "WU", u.memoryWrite.InstructionType, execution.SequenceID, "write to memory")
 			return nil
 		})
 
+		// The write is visible at once; the unit stays busy for the memory latency
+		u.ctx.WriteMemory(execution.Execution)
 		u.memoryWrite = execution
 	} else {
 		u.ctx.DeletePendingRegisters(execution.ReadRegisters, execution.WriteRegisters)
